@@ -1202,3 +1202,89 @@ func init() {
 		Doc: "the layout is repeated until it settles: every call of Instructions.Pass in Assemble sits inside a loop and its result (did anything move?) is used — no fixed number of passes on a fast path; together with C11.R14 (widths only grow) and C12.R10 (order inside a pass) this is what makes every jump land on its label",
 		Run: runLayoutSettles})
 }
+
+// ---- C19.R10: "no such module" is said only about the search, not about the module's own code ----
+//
+// ImportModuleLevelObject turns FileNotFoundError into ImportError("No module named …"). That translation is right for
+// the error of the path search (ResolveAndCompile) and wrong for an error raised while the module body runs: a module
+// that opens a missing data file would be reported as absent, `try: import m / except ImportError` would carry on as
+// if it were, and the half-run module would stay in the store. Every test IsException(FileNotFoundError, e) in the
+// import function therefore classifies a value that was last assigned from a call of ResolveAndCompile.
+func runNotFoundOnlyFromSearch(c *Ctx, r *Rep) {
+	p := c.MustPkg("py")
+	info := p.TypesInfo
+	fd0 := c.FuncDecl("py", "ImportModuleLevelObject")
+	if fd0 == nil {
+		r.undecided("notfound|anchor", token.NoPos, "py.ImportModuleLevelObject not found")
+		return
+	}
+	r.analysed("py.ImportModuleLevelObject")
+	fd := c.Expand(p, fd0)
+	type asg struct {
+		pos  token.Pos
+		call *ast.CallExpr
+	}
+	assigns := map[types.Object][]asg{}
+	ast.Inspect(fd.Body, func(nd ast.Node) bool {
+		as, ok := nd.(*ast.AssignStmt)
+		if !ok {
+			return true
+		}
+		var call *ast.CallExpr
+		if len(as.Rhs) == 1 {
+			call, _ = unparen(as.Rhs[0]).(*ast.CallExpr)
+		}
+		for _, l := range as.Lhs {
+			if id := identOf(l); id != nil && id.Name != "_" {
+				assigns[info.ObjectOf(id)] = append(assigns[info.ObjectOf(id)], asg{as.Pos(), call})
+			}
+		}
+		return true
+	})
+	n := 0
+	ast.Inspect(fd.Body, func(nd ast.Node) bool {
+		call, ok := nd.(*ast.CallExpr)
+		if !ok || len(call.Args) != 2 {
+			return true
+		}
+		fn := Callee(info, call)
+		if fn == nil || fn.Name() != "IsException" {
+			return true
+		}
+		if id := identOf(call.Args[0]); id == nil || id.Name != "FileNotFoundError" {
+			return true
+		}
+		n++
+		key := "notfound|py.ImportModuleLevelObject|FileNotFoundError classified"
+		eid := identOf(call.Args[1])
+		if eid == nil {
+			r.undecided(key, call.Pos(), "the classified value %s is not a variable", exprStr(call.Args[1]))
+			return true
+		}
+		var last *asg
+		for i := range assigns[info.ObjectOf(eid)] {
+			a := &assigns[info.ObjectOf(eid)][i]
+			if a.pos < call.Pos() && (last == nil || a.pos > last.pos) {
+				last = a
+			}
+		}
+		switch {
+		case last == nil || last.call == nil:
+			r.undecided(key, call.Pos(), "where %s was last assigned is not visible", eid.Name)
+		case Callee(info, last.call) != nil && Callee(info, last.call).Name() == "ResolveAndCompile":
+			r.ok(key, call.Pos(), "%s comes from the path search (ResolveAndCompile)", eid.Name)
+		default:
+			r.bad(key, call.Pos(), "the FileNotFoundError → ImportError translation is applied to the result of %s, which also runs the module's code: a module whose body raises FileNotFoundError (opening a missing file) is reported as 'No module named …', `except ImportError` treats it as absent and the half-run module stays registered — the translation belongs to the error of the path search (ResolveAndCompile) alone", exprStr(last.call.Fun))
+		}
+		return true
+	})
+	if n == 0 {
+		r.undecided("notfound|anchor", fd0.Pos(), "ImportModuleLevelObject no longer classifies FileNotFoundError: who reports a missing module is not visible")
+	}
+}
+
+func init() {
+	register(&Rule{ID: "C19.R10", Prop: "C19", Floor: 1,
+		Doc: "'no such module' is said only about the search: every IsException(FileNotFoundError, e) in ImportModuleLevelObject classifies a value last assigned from a call of ResolveAndCompile — never the result of something that also runs the module's code, whose own FileNotFoundError must reach the importer unchanged",
+		Run: runNotFoundOnlyFromSearch})
+}
